@@ -14,8 +14,9 @@ env = dict(os.environ, GOFLAGS="-mod=mod", GOPROXY="off", GOSUMDB="off", GOTOOLC
 def sh(cmd, **kw):
     return subprocess.run(cmd, shell=True, capture_output=True, text=True, env=env, **kw)
 sh("git -C /repo worktree remove --force %s" % wt)
-r = sh("git -C /repo worktree add --detach %s HEAD" % wt)
-meta = {"property": prop, "seed": m, "verified_at_repo_head": sh("git -C /repo rev-parse --short HEAD").stdout.strip(), "ran": []}
+base = os.environ.get("SEED_BASE", "HEAD")
+r = sh("git -C /repo worktree add --detach %s %s" % (wt, base))
+meta = {"property": prop, "seed": m, "verified_at_repo_head": sh("git -C /repo rev-parse --short %s" % os.environ.get("SEED_BASE", "HEAD")).stdout.strip(), "ran": []}
 try:
     demo = "bash %s/demo/run.sh %s" % (src, wt)
     d0 = sh(demo); meta["ran"].append({"cmd": demo + "   # unmodified tree", "rc": d0.returncode})
